@@ -218,12 +218,23 @@ pub fn materialise(root: &Path, w: &World, program: &[u8]) -> std::io::Result<La
             }
         }
     }
+    // a directory the simulator owns, offered to the program through path-valued
+    // environment variables ("@home" in extra_env): files the program looks for
+    // there can then be created for real
+    let home = root.join("home");
+    if w.extra_env.iter().any(|(_, v)| v.starts_with("@home")) || w.extra_files.iter().any(|(r, _)| r.starts_with("@home/")) {
+        fs::create_dir_all(&home)?;
+    }
     for (rel, content) in &w.extra_files {
-        // only plain relative paths below cwd
+        // only plain relative paths below cwd or below the simulator-owned home
+        let (basedir, rel) = match rel.strip_prefix("@home/") {
+            Some(r) => (home.clone(), r.to_string()),
+            None => (cwd.clone(), rel.clone()),
+        };
         if rel.is_empty() || rel.starts_with('/') || rel.split('/').any(|c| c == ".." || c.is_empty()) {
             continue;
         }
-        let p = cwd.join(rel);
+        let p = basedir.join(&rel);
         if p.exists() {
             continue;
         }
@@ -387,6 +398,7 @@ fn spawn_reader(fd: OwnedFd) -> std::thread::JoinHandle<Vec<u8>> {
 
 // child fd plan: Some(fd) to dup2 onto target, None to close the target
 struct ChildOpts {
+    rlimit: u8,
     sig: u8,
     umask: u8,
     fds: u8,
@@ -658,7 +670,14 @@ fn run_inner(cfg: &Config, worker: usize, program: &[u8], w: &World, plan: &Plan
     }
     for (k, v) in &w.extra_env {
         if !k.is_empty() && !k.contains('=') && !k.starts_with("SEEDSIM_") && k != "LD_PRELOAD" {
-            push_env(k, v.as_bytes());
+            match v.strip_prefix("@home") {
+                Some(rest) => {
+                    let mut val = run_root.join("home").as_os_str().as_bytes().to_vec();
+                    val.extend_from_slice(rest.as_bytes());
+                    push_env(k, &val);
+                }
+                None => push_env(k, v.as_bytes()),
+            }
         }
     }
     if w.env_pad > 0 {
@@ -688,7 +707,7 @@ fn run_inner(cfg: &Config, worker: usize, program: &[u8], w: &World, plan: &Plan
     };
 
     let stack = w.stack;
-    let opts = ChildOpts { sig: w.sig, umask: w.umask, fds: w.fds, uid: w.uid };
+    let opts = ChildOpts { rlimit: w.rlimit, sig: w.sig, umask: w.umask, fds: w.fds, uid: w.uid };
     let pid = unsafe { spawn(&exe_c, &argv, &envp, &cwd_c, &fds, stack, &opts) }?;
     WATCH.lock().unwrap().push((pid, Instant::now()));
 
@@ -919,6 +938,19 @@ unsafe fn spawn(
                 libc::sigfillset(&mut set);
                 libc::sigprocmask(libc::SIG_BLOCK, &set, std::ptr::null_mut());
             }
+            _ => {}
+        }
+        let lim = |res, v: libc::rlim_t| {
+            let r = libc::rlimit { rlim_cur: v, rlim_max: v };
+            libc::setrlimit(res, &r);
+        };
+        match opts.rlimit {
+            1 => lim(libc::RLIMIT_AS, 192 << 20),
+            2 => lim(libc::RLIMIT_AS, 1 << 30),
+            3 => lim(libc::RLIMIT_CPU, 60),
+            4 => lim(libc::RLIMIT_NOFILE, 260),
+            5 => lim(libc::RLIMIT_FSIZE, 4 << 20),
+            6 => lim(libc::RLIMIT_DATA, 128 << 20),
             _ => {}
         }
         if opts.uid == 1 {
